@@ -30,7 +30,8 @@ class PCN(Sampler):  # Refactor to Proposal-based sampler?
     def step(self):
         # propose state
         xi = self.prior.sample(1).flatten()   # sample from the prior
-        x_star = np.sqrt(1-self.scale**2)*self.current_point + self.scale*xi   # PCN proposal
+        m = self.prior.mean   # PCN is prior-reversible only when taken about the prior mean
+        x_star = m + np.sqrt(1-self.scale**2)*(self.current_point - m) + self.scale*(xi - m)   # PCN proposal
 
         # evaluate target
         loglike_eval_star =  self._loglikelihood(x_star) 
